@@ -37,6 +37,11 @@ Stop(ok, why) == Say(ok, why) /\ st' = (IF ok THEN "done" ELSE "rej")
 Go(o1, o2, c, m, ct, tg, w, sp) == /\ olo' = o1 /\ ohi' = o2 /\ cue' = c /\ mode' = m /\ callT' = ct /\ target' = tg
                                   /\ wakers' = w /\ stopped' = sp /\ l' = l + 1 /\ UNCHANGED <<rec, st>>
 
+\* A clock with tick length 0 does not sleep between ticks: its thread spins, the tick is no longer an instant (the
+\* script can look at the time between the tick's set and clear) and in virtual time every step of the spinning thread
+\* is given a cost of 1/512 s.  For such a record (R.spin) a delay still never ends early, and it ends within
+\* SpinSlack (16 such steps) of the later of its call and its due time.
+SpinSlack == 31250
 RetOk(t) ==
     LET dueLo == olo + cue
         dueHi == ohi + cue
@@ -46,6 +51,7 @@ RetOk(t) ==
         \/ callT >= dueLo /\ t = callT                       \* behind schedule: at once
         \/ callT < dueHi /\ t >= dueLo /\ t \in Rng(wakers)  \* on schedule: a tick that found it waiting, not early,
              /\ t1 # -1 /\ t >= t1 /\ (t2 = -1 \/ t <= t2)    \*   and the first such tick
+        \/ R.spin /\ t >= dueLo /\ t <= (IF callT > dueHi THEN callT ELSE dueHi) + SpinSlack   \* tick length 0, see SpinSlack
         \/ R.slow /\ callT < dueHi /\ t >= dueLo /\ (t2 = -1 \/ t <= t2)   \* ticks more than a second apart: the clock also looks
                                                                          \* at the time by itself once a second - not early,
                                                                          \* and no later than the first such tick
@@ -62,7 +68,7 @@ Step ==
                             ELSE IF e.t < callT THEN Stop(FALSE, "time ran backwards")
                             ELSE IF ~stopped /\ callT < olo + cue /\ e.t < olo + cue
                                  THEN Stop(FALSE, "NeverEarly: the delay ended before origin + sum of delays")
-                            ELSE IF ~stopped /\ callT >= ohi + cue /\ e.t # callT
+                            ELSE IF ~stopped /\ ~R.spin /\ callT >= ohi + cue /\ e.t # callT
                                  THEN Stop(FALSE, "AtOnceWhenBehind: behind schedule but the delay did not end at once")
                             ELSE IF ~RetOk(e.t) THEN Stop(FALSE, "FirstTickWaiting: not the first tick at or after the due time that found the script waiting")
                             ELSE Go(olo, ohi, cue, "idle", 0, 0, <<>>, stopped)
